@@ -171,8 +171,98 @@ impl serde::Serialize for FailsLate {
     }
 }
 
+/// A server that answers a large request as soon as it has seen its header and query, before
+/// it has drained the body (it can: the body is a pattern of the token in the path). The
+/// response is then on its way while the client is still writing: the call must get it.
+fn c04_eager_reply(case: &Case) {
+    net::set_config(NetConfig { capacity: pick(&[1024usize, 4096, 65_536]), lat_min: 0, lat_max: pick(&[0u64, 20_000]), max_segment: 0 });
+    let listener = TcpListener::bind("127.0.0.1:0").unwrap();
+    let addr = listener.local_addr().unwrap();
+    let len = pick(&[65_535usize, 65_536, 70_000, 150_000]);
+    let others = range(0, 2) as u64;
+    case.sample(json!({"scenario": "reply sent before the request body is drained", "request_body_bytes": len, "other_calls": others}));
+    let server = thread::spawn(move || {
+        let Ok((mut s, _)) = listener.accept() else { return };
+        // at most one reply is being written at a time (the early one goes out from its own thread)
+        let mut early: Option<thread::JoinHandle<()>> = None;
+        loop {
+            let mut hdr = [0u8; 48];
+            if std::io::Read::read_exact(&mut s, &mut hdr).is_err() {
+                return;
+            }
+            let h = Frame::parse_header(&hdr);
+            let mut q = vec![0u8; h.query_length as usize];
+            if std::io::Read::read_exact(&mut s, &mut q).is_err() {
+                return;
+            }
+            let token: u64 = String::from_utf8_lossy(&q).rsplit('/').next().and_then(|t| t.parse().ok()).unwrap_or(0);
+            let blen = h.body_length as usize;
+            let eager = blen >= 60_000;
+            let mut reply = Frame::new(h.id, &q, &pattern(token, blen));
+            reply.query_format = h.query_format;
+            reply.body_format = h.body_format;
+            if eager {
+                simkernel::count("probe.reply_sent_before_the_body_was_drained");
+                // from another handle, so that answering cannot dead-lock against draining
+                if let Some(e) = early.take() {
+                    e.join().ok();
+                }
+                let mut w = s.try_clone().unwrap();
+                let bytes = reply.encode();
+                early = Some(thread::spawn(move || {
+                    let _ = write_all_retry(&mut w, &bytes);
+                }));
+            }
+            let mut body = vec![0u8; blen];
+            if std::io::Read::read_exact(&mut s, &mut body).is_err() {
+                return;
+            }
+            if !eager {
+                if let Some(e) = early.take() {
+                    e.join().ok();
+                }
+                let mut r2 = Frame::new(h.id, &q, &body);
+                r2.query_format = h.query_format;
+                r2.body_format = h.body_format;
+                if write_all_retry(&mut s, &r2.encode()).is_err() {
+                    return;
+                }
+            }
+        }
+    });
+    let client = match Client::connect(addr) {
+        Ok(c) => c,
+        Err(e) => {
+            case.harness_error(format!("connect failed: {e}"));
+            return;
+        }
+    };
+    let mut hs = Vec::new();
+    for t in 0..=others {
+        let (c, case) = (client.clone(), case.clone());
+        let kind = if t == 0 { CallKind::Raw(len) } else { CallKind::Raw(pick(&[10usize, 3000])) };
+        hs.push(thread::spawn(move || {
+            if let Err(e) = do_call(&c, kind, 40 + t, Some(Duration::from_secs(60))) {
+                let class = if e.starts_with("WRONG-RESPONSE") { "wrong-response" } else { "call-failed-without-fault" };
+                case.fail(class, format!("call {} ({kind:?}) against a server that replies before draining the body: {e}", 40 + t));
+            }
+        }));
+    }
+    for h in hs {
+        h.join().ok();
+    }
+    case.check(client.verif_pending_len() == 0, "pending-residue", || format!("{} pending entries after all calls returned", client.verif_pending_len()));
+    drop(client);
+    net::shutdown_all();
+    server.join().ok();
+    case.nontrivial();
+}
+
 fn c04_client(case: &Case) {
     net::reset(draw_net());
+    if simkernel::choose(12) == 0 {
+        return c04_eager_reply(case);
+    }
     let listener = TcpListener::bind("127.0.0.1:0").unwrap();
     let addr = listener.local_addr().unwrap();
     let ncallers = pick(&[1u32, 2, 2, 3, 3, 4, 4, 5, 6, 6, 8, 16, 32, 64]);
